@@ -333,6 +333,10 @@ def _judge_csv(case, ctx):
         exp_rows = [tuple(_render(v) for v in r) for r in (first + [r for blk in extra for r in blk])]
         if not write_header:
             rkw['header'] = ['H%d' % i for i in range(len(table[0]))]
+            if zlib.crc32(repr(table).encode('utf-8', 'backslashreplace')) % 5 == 0:
+                # a header without any field, as a list or a tuple: still exactly one row added on top of what the file holds
+                rkw['header'] = [[], ()][len(table) % 2]
+                ctx.seen('header-on-read:empty-header')
             exp_rows = [tuple(rkw['header'])] + exp_rows
             ctx.seen('header-on-read')
         got = util.attempt_rows(lambda: frm(_reader(t1), **rkw))
